@@ -122,6 +122,10 @@ impl PlutusMap {
     /// Returns the previous value associated with the key, if any.
     /// Replace the values associated with the key.
     pub fn insert(&mut self, key: &PlutusData, values: &PlutusMapValues) -> Option<PlutusMapValues> {
+        // a key is written once per value: a key without values has no wire form, so it is not kept
+        if values.len() == 0 {
+            return self.0.remove(key);
+        }
         self.0.insert(key.clone(), values.clone())
     }
 
